@@ -906,7 +906,7 @@ func statusOperand(in ssa.Instruction) ssa.Value {
 		return cc.Args[0]
 	case cc.IsInvoke() && ci.Name == "WriteError" && len(cc.Args) == 3:
 		return cc.Args[2]
-	case ci.Name == "writeTranslatorError" && len(cc.Args) >= 1:
+	case isTranslatorErrorHelper(cc.StaticCallee()) && len(cc.Args) >= 1:
 		return cc.Args[len(cc.Args)-1]
 	}
 	return nil
